@@ -76,23 +76,19 @@ theorem foldr_terms_not_live (ls : LeafScore) (s : Segment) (f : String) (ts : L
 
 /-- the terms of the dictionary that pass `p` and occur in a document of the segment are the
     (distinct) terms of the document that pass `p` -/
-theorem expansion_perm {s : Segment} (hne : NoEmptyTerm s) {f : String} (p : Term → Bool) {d : Doc}
+theorem expansion_perm {s : Segment} {f : String} (p : Term → Bool) {d : Doc}
     (hd : d ∈ s.docs) :
-    ((((lexicon s f).filter p).filter (fun t => !t.isEmpty)).filter (fun t => d.hasTerm f t)).Perm
+    (((lexicon s f).filter p).filter (fun t => d.hasTerm f t)).Perm
       ((dedup (d.terms f)).filter p) := by
   apply (List.perm_ext_iff_of_nodup _ _).mpr
   · intro t
     simp only [List.mem_filter, mem_dedup, mem_lexicon]
     constructor
-    · rintro ⟨⟨⟨_, hp⟩, _⟩, ht⟩
+    · rintro ⟨⟨_, hp⟩, ht⟩
       exact ⟨hasTerm_iff_mem.mp ht, hp⟩
     · rintro ⟨ht, hp⟩
-      refine ⟨⟨⟨⟨d, hd, ht⟩, hp⟩, ?_⟩, hasTerm_iff_mem.mpr ht⟩
-      have : t ≠ [] := fun h => hne d hd f (h ▸ ht)
-      cases t with
-      | nil => exact absurd rfl this
-      | cons _ _ => rfl
-  · exact ((nodup_lexicon s f).filter _ |>.filter _ |>.filter _)
+      exact ⟨⟨⟨d, hd, ht⟩, hp⟩, hasTerm_iff_mem.mpr ht⟩
+  · exact ((nodup_lexicon s f).filter _ |>.filter _)
   · exact (nodup_dedup _).filter _
 
 /-! ### phrases -/
